@@ -83,6 +83,19 @@ def gen_vec_history(rng, big, maxops):
     return "%s %d %d %d %d %s" % ("VB" if big else "V", p, K, D, len(ops), " ".join(ops))
 
 
+def gen_short_dot(rng):
+    """SpVecFP<short>: (p-1)^2 fits the type (p <= 181), every single operation of the code stays in range, but a dot product over N >= 182 common indices
+    would not if its terms were accumulated without the per-term reduction (seeded change C18/r6m1); also long sums and scalings"""
+    p = rng.choice([181, 179, 173, 127, 2, 3])
+    N = rng.randint(185, 400)
+    ops = []
+    for i in range(N):
+        ops += ["U 1 %d" % i, "R 1 %d" % rng.choice([p - 1, p - 1, -1, p - 2 if p > 2 else 1]), "Q 0 1", "U 1 %d" % i, "Q 2 1"]
+        if i % 97 == 96: ops.append("D 0 2")
+    ops += ["D 0 2", "D 0 0", "D 2 2", "Z 0", "S 1 0 %d" % (p - 1), "D 1 2"]
+    return "Vs %d 3 %d %d %s" % (p, N, len(ops), " ".join(ops))
+
+
 def dense_vec(line):
     t = line.split(); p = int(t[1]); K = int(t[2]); n = int(t[4]); i = 5
     st = [dict() for _ in range(K)]; outs = []
@@ -425,11 +438,12 @@ def check(tier, seed):
                 cases += [l.strip() for l in open(os.path.join(corpus, f)) if l.strip() and not l.startswith("#")]
         c.extra["corpus_cases"] = len(cases)
         cases += gen_cases(c, tier)
+        cases += [gen_short_dot(c.rng) for _ in range(12 if tier == "quick" else 60)]
         # is_prime on multiprecision inputs beyond 10^12: the model's trial division (Z.iter over sqrt p steps, no early exit) cannot be
         # EXECUTED there (theorem C18_is_prime covers them); the implementation's answer is compared with a Miller-Rabin reference instead
         heavy = {i for i, cs in enumerate(cases) if cs.split()[0] == "PB" and abs(int(cs.split()[1])) > 10 ** 12}
         light = [i for i in range(len(cases)) if i not in heavy]
-        mo_l = lib.run_model("c18", [cases[i] for i in light])
+        mo_l = lib.run_model("c18", [("V" + cases[i][2:]) if cases[i].startswith("Vs ") else cases[i] for i in light])   # the Z model does not depend on the C++ type
         mo = [None] * len(cases)
         for i, m in zip(light, mo_l): mo[i] = m
         for i in heavy: mo[i] = "P 1" if is_prime_ref(int(cases[i].split()[1])) else "P 0"
@@ -443,7 +457,7 @@ def check(tier, seed):
         for i, cs in enumerate(cases):
             t = cs.split(); k = t[0]
             nt = (k in ("G", "GB") and t[1] != "0" and t[2] != "0") or (k in ("I", "IB") and int(t[2]) > 1) or \
-                 (k in ("P", "PB") and int(t[1]) >= 2) or (k in ("V", "VB") and (" P " in cs or " S " in cs or " R " in cs or " Q " in cs))
+                 (k in ("P", "PB") and int(t[1]) >= 2) or (k in ("V", "VB", "Vs") and (" P " in cs or " S " in cs or " R " in cs or " Q " in cs))
             c.count(cs, nt, bucket=k)
         bad = lib.diff_lines(cases, mo, io)
         c.extra["disagreements_checked"] = len(bad)
@@ -495,7 +509,7 @@ def replay(path):
             print("VIOLATION property=%s replay=%s" % (PID, path)); return 1
         return 0
     exe, err = lib.build_cpp(name="c18", srcs=["c18.cpp"])
-    m, i = lib.run_model("c18", [line], par=1)[0], lib.run_lines([exe], [line], par=1)[0]
+    m, i = lib.run_model("c18", [("V" + line[2:]) if line.startswith("Vs ") else line], par=1)[0], lib.run_lines([exe], [line], par=1)[0]
     why = judge(line, i)
     print("case :", line); print("model:", m); print("impl :", i); print("judge:", why)
     if why or m != i:
